@@ -141,7 +141,7 @@ def direct_sequence(mon, rng):
 
     d = int(rng.integers(1, 4))
     m = int(rng.integers(2, 4))
-    max_depth = int(rng.integers(2, 7 if d < 3 else 5))
+    max_depth = int(rng.integers(1, 7 if d < 3 else 5))
     ds = AdaptivelyDiscretizedDesignSpace(d, m, delta=float(rng.choice([0.05, 0.1, 0.3])), max_depth=max_depth)
     tree = ShadowTree(d)
     model = StubAD(rng, d, m)
